@@ -2458,7 +2458,14 @@ void Analyser::AnalyserImpl::scaleEquationAst(const AnalyserEquationAstPtr &ast)
                 auto astGrandparent = astParent->parent();
 
                 if (astGrandparent->mPimpl->mType == AnalyserEquationAst::Type::EQUALITY) {
-                    scaleAst(astGrandparent->mPimpl->mOwnedRightChild, astGrandparent, scalingFactor);
+                    // Note: the rate to be computed may be on the RHS of the
+                    //       equation, in which case it is the LHS that is to be
+                    //       scaled.
+
+                    scaleAst((astGrandparent->mPimpl->mOwnedLeftChild == astParent) ?
+                                 astGrandparent->mPimpl->mOwnedRightChild :
+                                 astGrandparent->mPimpl->mOwnedLeftChild,
+                             astGrandparent, scalingFactor);
                 } else {
                     scaleAst(astParent, astGrandparent, 1.0 / scalingFactor);
                 }
